@@ -4,8 +4,9 @@ Three streams over the same generated packages (Python text + mini-IR):
   builder-scope : real pydoctor (System/systemBuilder/addModuleString/buildModules) per namespace  vs  Lean `Builder.scope`
   pysem-scope   : the same files imported by CPython (harness/impl/pyrun.py, details mode)         vs  Lean `PySem.scope`
   direct oracle : pydoctor vs CPython, no model in between (names, kinds, coroutine flag, docstrings, literal types)
-plus two kernel streams: every decorator list up to length 3 (`builder kind`) and literal type inference
-(`builder infer`) against `_handleFunctionDef` / `astutils.infer_type` and the interpreter.
+plus kernel streams: every decorator list up to length 3 (`builder kind`), literal type inference (`builder infer`),
+`_maybeAttribute`/`Class.find` (every call logged during the builds + exhaustive chains, `builder find`), and a
+deterministic corpus (inputs of all recorded findings, shapes of all seeded changes) that runs first on every run.
 """
 from __future__ import annotations
 
@@ -29,6 +30,8 @@ THEOREMS = ["Builder.sim", "Builder.documented_eq_bound_partial", "Builder.kind_
             "Builder.documented_eq_bound_inherited_nonliteral_counterexample",
             "Builder.documented_eq_bound_inherited_counterexample_old", "Builder.documented_eq_bound_tail_counterexample",
             "Builder.documented_eq_bound_rebinding_counterexample", "Builder.documented_eq_bound_overload_counterexample",
+            "Builder.maybeAttribute_eq_find", "Builder.inheritedNonAttrOf_contains", "Builder.rel_put", "Builder.rel_updvar",
+            "Builder.documented_eq_bound_del_counterexample", "Builder.docstring_eq_docassign_counterexample",
             "Builder.kind_eq_counterexample", "Builder.oldstyle_double_wrap_asserts", "Builder.isNameEqualsMain_iff",
             "Builder.recognised_not_taken", "Builder.near_misses_taken_and_entered",
             "Builder.documented_eq_bound_untaken_guard_counterexample",
@@ -43,25 +46,35 @@ RULE = ("generated multi-module packages (package __init__, 1-3 modules, optiona
         "parts with and without definitions), if __name__ == '__main__' blocks and near misses of that test whose body IS executed on "
         "import (__name__ != '__main__', '__main__' != __name__, not __name__ == '__main__', __name__ is not None, ...) or is not "
         "('__main__' == __name__, __name__ is None, ...), nested defs, self.x assignments, "
-        "old-style f = staticmethod(f), re-bound names, docstrings in 9 indentation layouts. One case = one namespace "
+        "old-style f = staticmethod(f), re-bound names in both directions (definition over anything, variable over variable, "
+        "assignment over a definition), chained a = b = literal, name.__doc__ = text (clean and indented), del name, base classes "
+        "reached through from-imports, plain and aliased imports with the base's module sorting before and after, base classes "
+        "defined again after being subclassed, docstrings in 10 indentation layouts; a deterministic corpus (inputs of all recorded "
+        "findings, shapes of all seeded changes) and probes run first. One case = one namespace "
         "(module or class). Non-trivial = the namespace contains a decorator, a nested class, a taken block or an "
         "attribute docstring.")
 ASSUMPTIONS = [
     "generated names are ASCII identifiers and never shadow builtins; docstring text has no backslash/quote (value = source text between the quotes)",
     "a literal's IR is built from ast.literal_eval of its source (set elements / dict keys distinct under ==)",
-    "Class.find on the bases (what _maybeAttribute sees while the class body is visited) is read from the built system and handed to the model as context (registry and MRO are C02/C05's layers)",
+    "the order in which Class.find walks the classes while a body is visited (cls.mro() = allbases, initial base objects) and each class's contents are read from the built system; "
+    "the lookup itself (Builder.findIn / maybeAttributeIn / inheritedNonAttrOf) is modelled, proved equal to the scope-level guard (maybeAttribute_eq_find) and tied to the real "
+    "_maybeAttribute by the streams maybe-attribute (every call logged during the build) and kernel-find (exhaustive chains)",
+    "unpacking assignments, self.x instance variables, augmented assignment, aliases (name = other_name), typing.Final/ClassVar and docstring fields of properties are outside the IR "
+    "(unpacking and non-literal shadowing are judged by deterministic probes on fixed modules; instance variables are generated but filtered from both sides)",
     "MRO membership = reachability through the base lists (linearisation is C05's layer); generated hierarchies are acyclic and importable",
     "names bound by imports, loop/with targets, submodules and self.x instance attributes are outside the compared set in both directions (DESIGN 4.5)",
     "inspect.cleandoc is modelled by Lineno.cleandoc (tied to CPython by C16's stream and again here through every generated docstring)",
 ]
 PARTIAL = {
-    "Builder.documented_eq_bound_partial": "hypothesis Subset.inSubset: each name bound once per scope (old-style wrapping of a plain method allowed once), "
-        "no @x.setter/@x.deleter/@overload, no bare annotation, decorators bare classmethod/staticmethod/property in a class (at most one per def) or identity "
-        "decorators not named *property, else/finally parts bind nothing, no class attribute assigned a NON-literal that shadows an inherited "
-        "method/class (a literal may, since 91105ce), a `__name__` guard is skipped iff not taken on import. "
-        "(The exception-table clause of inSubset is vacuous for the generated tables: Builder.basesOk_generated.) Each excluded construct has a counterexample theorem; "
-        "setter, bare annotation and non-literal inherited shadowing are recorded open findings. Docstring (Builder.docstring_eq) and exception kind (Builder.exception_eq) "
-        "carry no exclusion of their own since fcaa577 / 769cae3; the former witnesses are kept as *_counterexample_old over labelled pre-fix definitions.",
+    "Builder.documented_eq_bound_partial": "hypothesis Subset.inSubset: a name may be bound again by a def or a class (whatever it was bound to) and a variable may be "
+        "assigned again - the last binding wins on both sides; excluded: an assignment to a name bound to a function, class or property (pydoctor keeps the definition), "
+        "@x.setter/@x.deleter/@overload, bare annotations, decorators other than bare classmethod/staticmethod/property in a class (at most one per def) or identity "
+        "decorators not named *property, definitions in else/finally parts, a class attribute assigned a NON-literal that shadows an inherited method/class, "
+        "a `__name__` guard that pydoctor enters although it is not taken on import (or the reverse), `del`, `name.__doc__ = text` unless name is a plain function or class of the "
+        "namespace and inspect.cleandoc leaves the text unchanged, a second old-style wrapping. (The exception-table clause of inSubset is vacuous for the generated tables: "
+        "Builder.basesOk_generated.) Each excluded construct has a counterexample theorem; setter, bare annotation, non-literal inherited shadowing and uncleaned __doc__ "
+        "assignment are recorded open findings. Docstring (Builder.docstring_eq) and exception kind (Builder.exception_eq) carry no exclusion of their own since fcaa577 / 769cae3; "
+        "the former witnesses are kept as *_counterexample_old over labelled pre-fix definitions.",
     "Builder.kind_eq": "decorator lists accepted by Subset.decosOk (kind_eq_iff characterises agreement for all lists of evaluable decorators)",
 }
 EXPLANATION = ("Builder.scope transcribes ModuleVistor for one namespace, PySem.scope CPython's execution of the same statements; the theorems relate "
@@ -277,7 +290,7 @@ def guard_taken(g) -> bool:
 def bound_names(stmts: list) -> List[str]:
     out: List[str] = []
     for s in stmts:
-        if s[0] in ("def", "class", "asg", "ann", "old"):
+        if s[0] in ("def", "class", "asg", "ann", "old", "doc", "del"):
             out.append(s[1])
         elif s[0] == "blk":
             out += bound_names(s[2]) + bound_names(s[3])
@@ -292,9 +305,14 @@ class Scope:
         self.labels: Dict[str, Set[str]] = {}       # name -> reasons it is outside the theorem's subset
         self.explicit_ann: Set[str] = set()
         self.bare: Set[str] = set()
+        self.cat: Dict[str, str] = {}     # name -> "var" | "def": what the name is bound to now (for labelling re-bindings)
+        self.docable: List[str] = []      # plain functions (no descriptor decorator) and classes: `name.__doc__ = …` works
 
     def label(self, name: str, why: str) -> None:
         self.labels.setdefault(name, set()).add(why)
+
+    def docable_used(self, out: list) -> Set[str]:
+        return set()
 
 
 class ProjGen:
@@ -369,6 +387,9 @@ class ProjGen:
             seen[name] = "nonattr"
             return
         out.append(("def", name, is_async, decos, doc, extra))
+        if not any(d in ("c", "s", "p", "C", "S", "P", "ov") or (isinstance(d, tuple) and d[0] in ("set", "del")) for d in decos) \
+                and not sc.labels.get(name):
+            sc.docable.append(name)
         seen[name] = "attr" if any(d in ("p", "P") or d == ("o", "log_property") for d in decos) and sc.in_class else "nonattr"
         if sc.in_class and decos == ["p"] and self.chance(0.12):
             sc.label(name, "string-after-property")
@@ -382,6 +403,8 @@ class ProjGen:
             if rng.random() < 0.3:
                 out.append(("oth",))
             out.append(("old", name, rng.choice(["c", "s"])))
+            if name in sc.docable:
+                sc.docable.remove(name)
             if self.chance(0.05):
                 sc.label(name, "double-wrap")     # AssertionError in _handleOldSchoolMethodDecoration
                 out.append(("old", name, rng.choice(["c", "s"])))
@@ -392,9 +415,15 @@ class ProjGen:
             cands = [n for n in seen if not n[0] == "K"]
             if cands:
                 n = rng.choice(cands)
-                sc.label(n, "rebound")
+                # the last binding wins on both sides, except when a def/class/property name is ASSIGNED afterwards
+                # (pydoctor keeps the definition): only that direction is outside the theorem's subset
+                sc.label(n, "rebound" if kind == "var" and sc.cat.get(n) == "def" else "rebound-ok")
+                if kind != "var" or sc.cat.get(n) != "def":
+                    sc.cat[n] = "var" if kind == "var" else "def"
                 return n
-        return self.fresh(prefix)
+        n = self.fresh(prefix)
+        sc.cat[n] = "var" if kind == "var" else "def"
+        return n
 
     def gen_assign(self, sc: Scope, seen: Dict[str, str], out: list, indent_depth: int, inherited: Dict[str, str]) -> None:
         rng = self.rng
@@ -421,6 +450,11 @@ class ProjGen:
                 sc.explicit_ann.add(name)
             out.append(("asg", name, src, lit_ir(ast.literal_eval(src)), ann))
             seen.setdefault(name, "attr")
+            if ann is None and rng.random() < 0.12:
+                # `a = b = literal`: one statement, the targets are handled (and bound) left to right
+                n2 = self.fresh("v")
+                out.append(("asg", n2, src, lit_ir(ast.literal_eval(src)), None, "chain"))
+                seen.setdefault(n2, "attr")
         if rng.random() < 0.35:
             if rng.random() < 0.2:
                 out.append(("oth",))
@@ -479,7 +513,7 @@ class ProjGen:
 
     def gen_redefined(self, sc: Scope, seen: Dict[str, str], out: list, modq: str, local_classes) -> None:
         """`class B(Exc)`, `class D(B)`, `class B(Exc2)` again: the base is defined a second time after it has been
-        subclassed (pydoctor then registers the first `B` after `D`).  `B` is bound twice: out of the theorem's subset."""
+        subclassed (pydoctor then registers the first `B` after `D`).  `B` is bound twice (a class over a class: inside the theorem's subset)."""
         rng = self.rng
         self.gen_class(sc, seen, out, 0, 0, modq, local_classes, False, force_bases=[("e", rng.choice(EXC_COMMON))], simple=True)
         name, cid1 = out[-1][1], out[-1][6]
@@ -493,7 +527,7 @@ class ProjGen:
         local_classes[:] = [x for x in local_classes if x != (name, cid1)]
         self.gen_class(sc, seen, out, 0, 0, modq, local_classes, False, force_name=name,
                        force_bases=[("e", rng.choice(EXC_COMMON + NON_EXC))])
-        sc.label(name, "rebound")
+        sc.label(name, "rebound-ok")      # a class over a class: the last definition wins on both sides
         self.redefined += 1
 
     def all_members(self, cid: int) -> Dict[str, str]:
@@ -509,7 +543,7 @@ class ProjGen:
         rng = self.rng
         n = nstmts if nstmts is not None else rng.randint(1, 5 if depth < 2 else 3)
         for _ in range(n):
-            k = rng.choice(["def", "def", "def", "asg", "asg", "class", "blk", "cmp", "str", "main", "oth"])
+            k = rng.choice(["def", "def", "def", "asg", "asg", "class", "blk", "cmp", "str", "main", "oth", "doc", "del"])
             if k == "def":
                 self.gen_def(sc, seen, out, indent_depth)
             elif k == "asg":
@@ -537,6 +571,25 @@ class ProjGen:
                 if out and out[-1][0] == "def" and any(d in ("p", "P") for d in out[-1][3]) and sc.in_class:
                     sc.label(out[-1][1], "string-after-property")
                 out.append(("str", gen_doc(rng, "    " * indent_depth)))
+            elif k == "doc" and [n for n in sc.docable if not sc.labels.get(n)] and sc.qname[0] != "<" and rng.random() < 0.6:
+                # `name.__doc__ = """…"""` for a plain function or a class of this namespace
+                nm = rng.choice([n for n in sc.docable if not sc.labels.get(n)])
+                raw = gen_doc(rng, "    " * indent_depth)
+                text = raw if self.chance(0.35) else inspect.cleandoc(raw)
+                if text.startswith(" ") or text.startswith("\t"):
+                    text = inspect.cleandoc(raw)
+                if inspect.cleandoc(text) != text:
+                    sc.label(nm, "doc-assign-unclean")
+                out.append(("doc", nm, text))
+            elif k == "del" and sc.qname[0] != "<" and self.chance(0.25):
+                cands = [n for n, kd in seen.items() if n[0] != "K" and not sc.labels.get(n) and n not in sc.docable_used(out)]
+                if cands:
+                    nm = rng.choice(cands)
+                    sc.label(nm, "deleted")
+                    if nm in sc.docable:
+                        sc.docable.remove(nm)
+                    del seen[nm]
+                    out.append(("del", nm))
             elif k == "cmp" and indent_depth < 4:
                 if rng.random() < 0.85 or self.odd == 0.0:
                     # near misses of the `__main__` idiom whose body IS executed on import
@@ -664,8 +717,15 @@ class ProjGen:
                 else:
                     out.append(ind + "    " + ("pass" if doc is None else "return None"))
             elif k == "asg":
-                _, name, src, lit, ann = s
-                out.append(ind + (("%s: %s = %s" % (name, ann, src)) if ann else ("%s = %s" % (name, src))))
+                name, src, lit, ann = s[1:5]
+                if len(s) > 5 and s[5] == "chain" and out and out[-1].startswith(ind) and out[-1].endswith(" = " + src):
+                    out[-1] = out[-1][:-len(src)] + "%s = %s" % (name, src)      # a = b = literal
+                else:
+                    out.append(ind + (("%s: %s = %s" % (name, ann, src)) if ann else ("%s = %s" % (name, src))))
+            elif k == "doc":
+                out.append(ind + s[1] + '.__doc__ = """' + s[2] + '"""')
+            elif k == "del":
+                out.append(ind + "del " + s[1])
             elif k == "ann":
                 out.append(ind + "%s: %s" % (s[1], s[2]))
             elif k == "str":
@@ -727,6 +787,10 @@ def stmt_tokens(stmts: list) -> List[str]:
                     "-" if doc is None else enc(doc)]
         elif k == "asg":
             out += ["asg", enc(s[1]), lit_tok(s[3]), enc(s[4]) if s[4] else "-"]
+        elif k == "doc":
+            out += ["doc", enc(s[1]), enc(s[2])]
+        elif k == "del":
+            out += ["del", enc(s[1])]
         elif k == "ann":
             out += ["ann", enc(s[1]), enc(s[2])]
         elif k == "str":
@@ -799,7 +863,25 @@ def nontrivial(stmts: list) -> bool:
 
 # --------------------------------------------------------------------------- implementation adapters
 
-def build_pydoctor(files: Dict[str, str], modules: List[Tuple[str, bool]]):
+def build_pydoctor(files: Dict[str, str], modules: List[Tuple[str, bool]], find_log: Optional[list] = None):
+    """build the real system; with `find_log`, every call of astbuilder._maybeAttribute made while the bodies are
+    visited is recorded as (name, [contents of each class of cls.mro() as (name, is Attribute)], result)"""
+    from pydoctor import model, astbuilder
+    orig = astbuilder._maybeAttribute
+    if find_log is not None:
+        def logged(cls, name):
+            chain = [[(n, isinstance(o, model.Attribute)) for n, o in b.contents.items()] for b in cls.mro()]
+            r = orig(cls, name)
+            find_log.append((name, chain, r))
+            return r
+        astbuilder._maybeAttribute = logged
+    try:
+        return _build_pydoctor(files, modules)
+    finally:
+        astbuilder._maybeAttribute = orig
+
+
+def _build_pydoctor(files: Dict[str, str], modules: List[Tuple[str, bool]]):
     from pydoctor import model
     s = model.System()
     b = s.systemBuilder(s)
@@ -818,6 +900,11 @@ def build_pydoctor(files: Dict[str, str], modules: List[Tuple[str, bool]]):
         rel = q.replace(".", "/") + ("/__init__.py" if ispkg else ".py")
         parent = q.rsplit(".", 1)[0] if "." in q else None
         b.addModuleString(files[rel], q.rsplit(".", 1)[-1], parent_name=parent, is_package=ispkg)
+        m = s.allobjects.get(q)
+        if m is not None and hasattr(m, "_py_string"):
+            # addModuleString runs the text through textwrap.dedent, which empties whitespace-only lines (also inside
+            # string literals); CPython gets the file as written, so pydoctor must parse exactly that text
+            m._py_string = files[rel]
     b.buildModules()
     return s
 
@@ -840,6 +927,25 @@ def pd_dump(obj) -> Tuple[str, Dict[str, Dict[str, Any]]]:
                                "1" if isasync else "0", "-" if anns is None else enc(anns)]))
         info[name] = {"cls": cls, "kind": kind, "doc": m.docstring, "async": isasync, "ann": anns}
     return "ok " + " ".join(parts), info
+
+
+def contents_token(cc) -> str:
+    return ",".join("%s=%s" % (enc(n), "A" if a else "N") for n, a in cc) or "-"
+
+
+def bases_chain(cls) -> List[list]:
+    """the bases of `cls` as `Class.find` walks them while the class body is visited (initial base objects,
+    depth first, as `allbases`), each as [(name, is Attribute)]"""
+    from pydoctor import model
+    order: list = []
+
+    def allbases(c):
+        for b in c._initialbaseobjects:
+            if b is not None:
+                order.append(b)
+                allbases(b)
+    allbases(cls)
+    return [[(n, isinstance(o, model.Attribute)) for n, o in b.contents.items()] for b in order]
 
 
 def inherited_nonattr(cls) -> List[str]:
@@ -913,7 +1019,7 @@ def oracle_scope(ctx: Ctx, sc: Scope, pd: Dict[str, Dict[str, Any]], py: Dict[st
     def excused(name: str) -> Optional[str]:
         """mismatch on a name the generator put outside the theorem's subset for a reason that is not a recorded finding"""
         for why in ("rebound", "overload", "tail-def", "stacked-descriptors", "qualified-spelling",
-                    "opaque-named-property", "module-level-descriptor", "double-wrap", "untaken-guard"):
+                    "opaque-named-property", "module-level-descriptor", "double-wrap", "untaken-guard", "deleted"):
             if why in sc.labels.get(name, ()):
                 return why
         return None
@@ -956,7 +1062,10 @@ def oracle_scope(ctx: Ctx, sc: Scope, pd: Dict[str, Dict[str, Any]], py: Dict[st
             report("kind:coroutine-flag", n, "%r is_async=%s, Python coroutine=%s" % (n, p["async"], d["coroutine"]))
         if pk != "variable":
             if p["doc"] != d["doc"]:
-                if "string-after-property" in sc.labels.get(n, ()):
+                if "doc-assign-unclean" in sc.labels.get(n, ()):
+                    report("docstring:doc-assignment-not-cleaned", n, "%r carries the string assigned to its __doc__ as written (%r); the interpreter's "
+                           "cleaned docstring is %r" % (n, p["doc"], d["doc"]))
+                elif "string-after-property" in sc.labels.get(n, ()):
                     report("docstring:string-after-property", n, "property %r carries the string statement that follows it, not the getter's docstring" % n)
                 else:
                     report("docstring:differs", n, "%r docstring %r, interpreter %r" % (n, p["doc"], d["doc"]))
@@ -1038,6 +1147,35 @@ def kernel_decorators(ctx: Ctx) -> None:
             ctx.case("kind:" + reqs[-1], len(c) > 0, None)
     ctx.count("kernel:decorator-lists", len(combos) * 2)
     ctx.compare("kernel-decorators", reqs, impls, pay)
+
+
+def kernel_find(ctx: Ctx) -> None:
+    """`_maybeAttribute` / `Class.find` exhaustively on single-inheritance chains of 1-3 classes where each class has the
+    name `x` as nothing / a variable / a method / a nested class (plus an unrelated member): the real function on the
+    real classes vs `Builder.maybeAttributeIn`"""
+    from pydoctor import model, astbuilder
+    body = {"0": ["    other = 1"], "a": ["    x = 1"], "m": ["    def x(self): pass"], "c": ["    class x: pass"]}
+    combos = [c for n in (1, 2, 3) for c in itertools.product("0amc", repeat=n)]
+    lines: List[str] = []
+    for i, combo in enumerate(combos):
+        for j, k in enumerate(reversed(combo)):          # base first
+            base = "(K%d_%d)" % (i, j - 1) if j else ""
+            lines += ["class K%d_%d%s:" % (i, j, base)] + body[k]
+    s = model.System()
+    b = s.systemBuilder(s)
+    b.addModuleString("\n".join(lines) + "\n", "m")
+    b.buildModules()
+    reqs, impls, pay = [], [], []
+    for i, combo in enumerate(combos):
+        cls = s.allobjects["m.K%d_%d" % (i, len(combo) - 1)]
+        chain = [[(n, isinstance(o, model.Attribute)) for n, o in c.contents.items()] for c in cls.mro()]
+        for name in ("x", "other", "nope"):
+            reqs.append("builder find %s %s" % (enc(name), " ".join(contents_token(cc) for cc in chain)))
+            impls.append("True" if astbuilder._maybeAttribute(cls, name) else "False")
+            pay.append({"chain": "".join(combo), "name": name})
+            ctx.case("find:" + reqs[-1], name == "x" and len(combo) > 1, None)
+    ctx.count("kernel:find-chains", len(reqs))
+    ctx.compare("kernel-find", reqs, impls, pay)
 
 
 def kernel_infer(ctx: Ctx) -> None:
@@ -1142,10 +1280,162 @@ def probe_shadowing(ctx: Ctx) -> None:
                          "m.%s documents %r which Python does not bind" % (cls, n))
 
 
+UNPACK_PROBE = """p, q = 1, 2
+[e, f] = [1, 2]
+a, *b = 1, 2, 3
+(c, (d, g)) = 1, (2, 3)
+class C:
+    r, s = 1, 2
+    [u, v] = [1, 2]
+    w, *z = 1, 2
+"""
+
+
+def probe_unpacking(ctx: Ctx) -> None:
+    """unpacking assignments (outside the IR: `visit_Assign` treats the elements of a tuple target as assignments without
+    value): every name Python binds must be documented — tuple, list, starred and nested targets, module and class level"""
+    from pydoctor import model
+    s = model.System()
+    b = s.systemBuilder(s)
+    b.addModuleString(UNPACK_PROBE, "m")
+    b.buildModules()
+    glob: Dict[str, Any] = {"__name__": "m"}
+    exec(UNPACK_PROBE, glob)
+    for scope, ns in (("m", glob), ("m.C", vars(glob["C"]))):
+        bound = [k for k in ns if not (k.startswith("__") and k.endswith("__"))]
+        documented = list(s.allobjects[scope].contents)
+        ctx.case("probe-unpacking:" + scope, True, None)
+        for n in bound:
+            if n not in documented:
+                ctx.fail("missing-member:unpacking-target", {"files": {"m.py": UNPACK_PROBE}, "scope": scope, "name": n},
+                         "%s: %r is bound by an unpacking assignment (list / starred / nested target) and not documented" % (scope, n))
+        for n in documented:
+            if n not in bound:
+                ctx.fail("invented-member:other", {"files": {"m.py": UNPACK_PROBE}, "scope": scope, "name": n},
+                         "%s documents %r which Python does not bind" % (scope, n))
+
+
+# --------------------------------------------------------------------------- deterministic corpus (runs first, every run)
+
+def assemble(mod_specs: List[Tuple[str, bool, List[str], list]]):
+    """a hand-written package as (generator-like object, files, module names); mod_specs = (qname, is_package, import lines, IR)"""
+    import random
+    g = ProjGen(random.Random(0), odd=0.0)
+    files: Dict[str, str] = {"pk/_h.py": HELPER}
+    g.modules = []
+
+    def walk(stmts: list, qname: str, in_block: bool) -> None:
+        for st in stmts:
+            if st[0] == "class":
+                g.env[st[6]] = [b[:2] for b in st[2]]
+                cq = qname + "." + st[1]
+                g.scopes[:] = [x for x in g.scopes if x.qname != cq and not x.qname.startswith(cq + ".")]   # superseded definition
+                csc = Scope(cq, True, in_block, st[5], st[6])
+                walk(st[5], cq, in_block)
+                g.scopes.append(csc)
+            elif st[0] == "blk":
+                walk(st[2], qname, True)
+            elif st[0] == "cmp" and guard_taken(st[1]):
+                walk(st[2], qname, True)
+    for q, ispkg, imports, stmts in mod_specs:
+        sc = Scope(q, False, False, stmts)
+        sc.imported = {x.split(" import ")[1] for x in imports if x.startswith("from ")}
+        walk(stmts, q, False)
+        g.scopes.append(sc)
+        rel = q.replace(".", "/") + ("/__init__.py" if ispkg else ".py")
+        files[rel] = "\n".join(HEADER + imports + g.emit(stmts, 0)) + "\n"
+        g.modules.append((q, ispkg))
+    for sc in g.scopes:
+        for st in flat(sc.stmts):
+            if st[0] == "ann":
+                sc.bare.add(st[1])
+            if st[0] in ("asg", "ann") and len(st) > 4 and st[4]:
+                sc.explicit_ann.add(st[1])
+            if st[0] == "ann":
+                sc.explicit_ann.add(st[1])
+            if st[0] == "doc" and inspect.cleandoc(st[2]) != st[2]:
+                sc.label(st[1], "doc-assign-unclean")
+            if st[0] == "del":
+                sc.label(st[1], "deleted")
+    return g, files, [q for q, _ in g.modules]
+
+
+def corpus_packages():
+    """the inputs of every recorded C03 finding (open and fixed) and the shape each seeded change needs (seeded/C03*/meta.json)"""
+    def D(name, decos=(), doc=None, is_async=False):
+        return ("def", name, is_async, list(decos), doc, "")
+
+    def A(name, src, ann=None):
+        return ("asg", name, src, lit_ir(ast.literal_eval(src)), ann)
+
+    def C(name, cid, bases=(), body=(), doc=None):
+        return ("class", name, list(bases), [], doc, list(body) or [("oth",)], cid)
+    E = lambda n: ("e", n)
+    init = [
+        ("ann", "W0", "int"),                                                   # finding: bare annotation (module)
+        C("K1", 1, (), [
+            A("v1", "1"),                                                       # seeded r2-2: assignment without its own docstring,
+            D("p1", ["p"], "getter doc"),                                       #   then a property,
+            ("str", "not the docstring of p1"),                                 #   then a bare string (fixed: fcaa577)
+            D("p1", [("set", "p1")], "setter doc"),                             # finding: x.setter / x.deleter members
+            D("p1", [("del", "p1")]),
+            ("ann", "W1", "int"),                                               # finding: bare annotation (class)
+        ]),
+        C("K4", 4, [E("ExceptionGroup")]), C("K5", 5, [E("EncodingWarning")]),  # fixed: 769cae3
+        C("K6", 6, [E("BaseExceptionGroup")]),
+        C("K7", 7, (), [D("f7"), C("N7", 70)]),
+        C("K8", 8, [("u", 7, "K7")], [A("f7", "1"), A("N7", "None")]),          # fixed: 91105ce (literal shadows inherited)
+        ("cmp", ("d", "ne", "m", 0), [D("f3", (), "in a taken guard"), C("K3", 3, [E("ValueError")])]),   # seeded C03-2
+        ("cmp", ("m", "ne", "d", 0), [A("v3", "[1, 2]")]),
+        ("cmp", ("d", "isnot", "n", 0), [D("f4")]),
+        ("cmp", ("d", "eq", "m", 1), [A("v4", "'s'")]),
+        ("main", [D("hidden")]),
+        D("f5", (), "\n    Heading\n        item one\n        item two\n    "),  # seeded r2-3: deeper lines after the first
+        D("f6"),
+        ("doc", "f6", "\n    Title\n\n      indented\n    "),                   # finding: doc assignment not cleaned
+        D("f8"), ("doc", "f8", "assigned, already clean"),
+    ]
+    ma = [
+        C("K2", 20, (), [
+            ("blk", "t", [D("f2", ["c"], "first definition, a classmethod with a docstring")], []),   # seeded C03-1
+            D("f2"),                                                                                  # later: plain, no docstring
+            ("blk", "i", [D("g2", ["s"], "first")], []),
+            D("g2", (), None, True),
+        ]),
+        C("K11", 11, [E("Exception")]),                                         # seeded r2-1: base defined again after being subclassed
+        C("K12", 12, [("u", 11, "K11")]),
+        C("K11", 13, [E("KeyError")]),
+        A("tmp", "1"), ("del", "tmp"),
+    ]
+    zz = [C("K10", 10, [E("OSError")]), C("M10", 14, ())]
+    ab = [                                                                      # seeded r2-1: plain import, importer sorts first
+        C("K9", 9, [("u", 10, "pk.zz.K10")]),
+        C("P9", 15, (), [C("N9", 16, [("u", 10, "pk.zz.K10"), ("u", 14, "pk.zz.M10")])]),
+        C("K13", 17, [("u", 9, "K9")]),
+    ]
+    mq = [C("K14", 18, [("u", 17, "al1.K13")])]
+    return [assemble([("pk", True, [], init), ("pk.ma", False, [], ma), ("pk.zz", False, [], zz),
+                      ("pk.ab", False, ["import pk.zz"], ab), ("pk.mq", False, ["import pk.ab as al1"], mq)])]
+
+
+def run_corpus(ctx: Ctx) -> None:
+    batch = corpus_packages()
+    pyres = run_cpython([{"files": f, "modules": ["pk._h"] + m, "details": True} for _, f, m in batch])
+    for (_, files, _), py in zip(batch, pyres):
+        if py["error"]:
+            raise Infra("corpus package is not importable: " + py["error"])
+    before = ctx.evaluations
+    run_batch(ctx, batch, pyres)
+    ctx.count("corpus:namespaces", ctx.evaluations - before)
+
+
 def run(ctx: Ctx) -> None:
     check_tables(ctx)
+    run_corpus(ctx)
     probe_shadowing(ctx)
+    probe_unpacking(ctx)
     kernel_decorators(ctx)
+    kernel_find(ctx)
     kernel_infer(ctx)
     nproj = 330 if ctx.quick else 10000
     per = 110 if ctx.quick else 125
@@ -1203,6 +1493,7 @@ def merge(ctx: Ctx, st: Dict[str, Any]) -> None:
 
 def run_batch(ctx: Ctx, batch, pyres) -> None:
     reqs_pd, impl_pd, reqs_py, impl_py, pay, sub_reqs, meta = [], [], [], [], [], [], []
+    find_reqs, find_impl, find_pay = [], [], []
     for (g, files, mods), py in zip(batch, pyres):
         if py["error"]:
             ctx.count("generator:not-importable:" + py["error"].split(" ")[0])
@@ -1214,8 +1505,9 @@ def run_batch(ctx: Ctx, batch, pyres) -> None:
         for f in g.import_forms:
             ctx.count("import:" + f)
         ctx.count("construct:base-redefined-after-subclass", g.redefined)
+        find_log: list = []
         try:
-            system = build_pydoctor(files, g.modules)
+            system = build_pydoctor(files, g.modules, find_log)
         except AssertionError as e:
             # `assert target_obj.kind is DocumentableKind.METHOD` in _handleOldSchoolMethodDecoration: the model has this
             # outcome; the crash is excused (and counted) only when the model predicts it for a namespace of the package
@@ -1230,13 +1522,30 @@ def run_batch(ctx: Ctx, batch, pyres) -> None:
             ctx.fail("analysis-crash:" + type(e).__name__, {"files": files}, "%s: %s" % (type(e).__name__, e))
             continue
         envt = env_token(g.env)
+        for name, chain, r in find_log[:60]:
+            find_reqs.append("builder find %s %s" % (enc(name), " ".join(contents_token(cc) for cc in chain)))
+            find_impl.append("True" if r else "False")
+            find_pay.append({"name": name, "chain": chain, "files": files})
+            ctx.count("find:" + ("own" if any(n == name for n, _ in chain[0]) else
+                                 "inherited" if any(n == name for cc in chain[1:] for n, _ in cc) else "absent") + ":" + str(r))
+        # the context handed to the scope model: `Builder.inheritedNonAttrOf` of the bases' contents (one driver call)
+        class_scopes = [sc for sc in g.scopes if sc.in_class and system.allobjects.get(sc.qname) is not None]
+        inh_of: Dict[str, List[str]] = {}
+        if ctx.model_ok and class_scopes:
+            outs = ctx.driver.run(["builder inherited " + (" ".join(contents_token(cc) for cc in bases_chain(system.allobjects[sc.qname])) or "")
+                                   for sc in class_scopes])
+            for sc, o in zip(class_scopes, outs):
+                from ..core import dec
+                inh_of[sc.qname] = [] if o in ("-", "bad-op") else sorted(dec(t) for t in o.split(","))
+                if inh_of[sc.qname] != inherited_nonattr(system.allobjects[sc.qname]):
+                    ctx.disagree("inherited-context", {"scope": sc.qname, "files": files}, o, inherited_nonattr(system.allobjects[sc.qname]))
         for sc in g.scopes:
             obj = system.allobjects.get(sc.qname)
             pyd = py["details"].get(sc.qname)
             if obj is None or pyd is None:
                 ctx.fail("scope-missing", {"files": files, "scope": sc.qname}, "namespace %s: pydoctor %s, CPython %s" % (sc.qname, obj is not None, pyd is not None))
                 continue
-            inh = inherited_nonattr(obj) if sc.in_class else []
+            inh = (inh_of.get(sc.qname) if sc.qname in inh_of else inherited_nonattr(obj)) if sc.in_class else []
             label_strings(sc, set(inh))
             head = "%s%d %s %s " % ("C" if sc.in_class else "M", 1 if sc.in_block else 0,
                                      ",".join(enc(n) for n in inh) or "-", envt)
@@ -1264,12 +1573,13 @@ def run_batch(ctx: Ctx, batch, pyres) -> None:
                     ctx.count("block:" + s[1])
                 if s[0] == "cmp":
                     ctx.count("guard:%s:%s" % ("taken" if guard_taken(s[1]) else "untaken", guard_src(s[1])))
+    ctx.compare("maybe-attribute", find_reqs, find_impl, find_pay)
     ctx.compare("builder-scope", reqs_pd, impl_pd, pay)
     ctx.compare("pysem-scope", reqs_py, impl_py, pay)
     verdicts = ctx.driver.run_parallel(sub_reqs) if ctx.model_ok else ["out"] * len(sub_reqs)
     for v, (sc, pdinfo, pyinfo, files, inh, rq) in zip(verdicts, meta):
         ctx.count("subset:" + v)
-        if v == "in" and any(x - {"shadows-inherited", "string-after-property"} for x in sc.labels.values()):
+        if v == "in" and any(x - {"shadows-inherited", "string-after-property", "rebound-ok"} for x in sc.labels.values()):
             # the generator's labels and the Lean predicate must agree on what is outside the subset
             ctx.disagree("subset-labels", {"scope": sc.qname, "labels": {k: sorted(x) for k, x in sc.labels.items()}, "files": files}, "in", "labelled")
         before = len(ctx.failures), sum(f["count"] for f in ctx.failures)
